@@ -3,7 +3,7 @@ from fractions import Fraction as F
 from .core import fr, frs
 from .runner import Case
 
-GROUP = dict(name='alias', sources=['h_alias.cpp'], repo_sources=[], driver='alias')
+GROUP = dict(name='alias', sources=['h_alias.cpp'], repo_sources=[], driver='alias', thread_mode=True)
 
 
 def halves_equal(vals, line):
